@@ -1,0 +1,35 @@
+//go:build verif
+
+// Contracts for the deductive verifier in /verif (govc): when incremental
+// indexing may skip a repository (C38). Comment-only file, compiled only with
+// -tags verif. These are control-flow and reads-frame contracts (frames back
+// end), generated from the struct types on every run.
+
+package index
+
+// The option hash must depend on every build option that changes which
+// content or symbols get indexed. Exempt are the options that only say where
+// and how the index is produced: its location and naming (IndexDir,
+// ShardPrefixOverride), how the work is split (Parallelism, ShardMax,
+// ShardMerging, HeapProfileTriggerBytes), the delta-build plumbing (IsDelta,
+// changedOrRemovedFiles), and the repository description and sub-repository
+// map, which IndexState compares separately (branches, mutable metadata).
+// A field added to Options later must be hashed or listed here.
+//@ func index.(*Options).HashOptions
+//@   trusted
+//@   assigns nothing
+//@   reads_fields Options except IndexDir, ShardPrefixOverride, Parallelism, ShardMax, ShardMerging, HeapProfileTriggerBytes, IsDelta, changedOrRemovedFiles, RepositoryDescription, SubRepositories
+
+// ... and everything collected for the hash is fed to it.
+//@ func index.(*Options).GetHash
+//@   trusted
+//@   assigns nothing
+//@   reads_fields HashOptions
+
+// IndexState answers "equal" (the only answer on which indexing is skipped)
+// only on paths where the stored option hash equalled the current one, the
+// stored branches were deeply equal to the requested ones, and merging the
+// mutable metadata neither failed nor changed anything.
+//@ func index.(*Options).IndexState
+//@   guard return:"equal" by eqcall:GetHash && call:DeepEqual && nilerr:MergeMutable && !res0:MergeMutable
+
